@@ -219,6 +219,15 @@ def _store_array(
                 )
                 warn(warn_msg, stacklevel=2)
                 source = source.rechunk(target.shards)
+    if is_storage_array(target) and getattr(target, "shards", None) is None:
+        try:
+            target_chunks = target.chunks
+        except NotImplementedError:
+            target_chunks = None  # rectilinear chunk grid
+        if target_chunks is not None and tuple(target_chunks) != source.chunksize:
+            # each task must write whole target chunks, otherwise concurrent
+            # tasks would overwrite each other's data
+            source = source.rechunk(tuple(target_chunks))
     if not is_storage_array(target):
         target = lazy_zarr_array(
             target,
